@@ -15,6 +15,12 @@ CONSTANTS
   Mode = "cli"
   MaxLines = 2
   Variant = "cli_no_clean"
+  NoCols = {FALSE}
+  AddChrs = {FALSE}
+  DupFlags = {FALSE}
+  LowQFlags = {FALSE}
+  PosMax = 1
+  MapqReading = "ignored"
 INVARIANT Inv_X05_NoCrash
 INVARIANT Inv_X05_Refused
 INVARIANT Inv_X05_Files
